@@ -78,7 +78,7 @@ Print Assumptions C02_failing_reader_rejected.
 Theorem C02_piece_length_fn : forall sum sha1 d data pl i,
   (0 < pl < 9223372036854775808)%Z -> (lenZ data < 9223372036854775808)%Z ->
   let ps := pieces (Z.to_N pl) data in
-  get_piece_length (Proof.C02.expected sum sha1 d data pl) i =
+  get_piece_length (expected sum sha1 d data pl) i =
     if ((0 <=? i) && (i <? lenZ ps))%Z then lenZ (nth (Z.to_nat i) ps []) else 0%Z.
 Proof. exact Proof.C02.get_piece_length_spec. Qed.
 Print Assumptions C02_piece_length_fn.
@@ -86,7 +86,7 @@ Print Assumptions C02_piece_length_fn.
 Theorem C02_piece_length_total : forall sum sha1 d data pl,
   (0 < pl < 9223372036854775808)%Z -> (lenZ data < 9223372036854775808)%Z ->
   fold_right Z.add 0%Z
-    (map (get_piece_length (Proof.C02.expected sum sha1 d data pl))
+    (map (get_piece_length (expected sum sha1 d data pl))
          (zrange 0 (length (pieces (Z.to_N pl) data)))) = lenZ data.
 Proof. exact Proof.C02.get_piece_length_total. Qed.
 Print Assumptions C02_piece_length_total.
@@ -97,7 +97,7 @@ Print Assumptions C02_piece_length_total.
    survives Serialize + DeserializeMetaInfo unchanged; the result carries the info hash of that
    same info (same bencoding) and the digest its name spells *)
 Theorem C02_json_roundtrip : forall sha1 mi,
-  Proof.C02_json.wf_info (mi_info mi) -> valid_name (i_name (mi_info mi)) = true ->
+  wf_info (mi_info mi) -> valid_name (i_name (mi_info mi)) = true ->
   deserialize sha1 (serialize mi) =
     Ok (mkmi (mi_info mi) (sha1 (bencode_info (mi_info mi))) (i_name (mi_info mi))).
 Proof. exact Proof.C02_json.deserialize_serialize. Qed.
@@ -108,7 +108,7 @@ Print Assumptions C02_json_roundtrip.
 Theorem C02_json_roundtrip_generated : forall sha1 sum, (forall b, sum b < 4294967296) ->
   forall d data pl,
   (0 < pl < 9223372036854775808)%Z -> (lenZ data < 9223372036854775808)%Z -> valid_name d = true ->
-  deserialize sha1 (serialize (Proof.C02.expected sum sha1 d data pl)) = Ok (Proof.C02.expected sum sha1 d data pl).
+  deserialize sha1 (serialize (expected sum sha1 d data pl)) = Ok (expected sum sha1 d data pl).
 Proof. exact Proof.C02_json.roundtrip_generated. Qed.
 Print Assumptions C02_json_roundtrip_generated.
 
@@ -122,7 +122,7 @@ Print Assumptions C02_deserialize_consistent.
 (* the guard valid_name is needed: metainfo built for the zero Digest{} (empty name)
    serialises but does not parse back (seed case seed-zero-digest) *)
 Theorem C02_roundtrip_zero_digest_refuted : exists data pl,
-  (0 < pl)%Z /\ deserialize sha1_bytes (serialize (Proof.C02.expected crc32 sha1_bytes [] data pl)) = Err.
+  (0 < pl)%Z /\ deserialize sha1_bytes (serialize (expected crc32 sha1_bytes [] data pl)) = Err.
 Proof. exact Proof.C02_check.zero_digest_witness. Qed.
 Print Assumptions C02_roundtrip_zero_digest_refuted.
 
@@ -160,7 +160,7 @@ Theorem C02_generate : forall sum sha1, (forall b, sum b < 4294967296) ->
   (lenZ (concat chunks) < 9223372036854775808)%Z ->
   let pl := plconfig_get (sort_ranges (conv_tbl tbl)) (lenZ (concat chunks)) in
   generate sum sha1 tbl d (mkrd chunks false) =
-    if (pl <=? 0)%Z then Err else Ok (Proof.C02.expected sum sha1 d (concat chunks) pl).
+    if (pl <=? 0)%Z then Err else Ok (expected sum sha1 d (concat chunks) pl).
 Proof. exact Proof.C02_check.generate_spec. Qed.
 Print Assumptions C02_generate.
 
